@@ -7,6 +7,7 @@ import Hannibal.Monitor.C06
 import Hannibal.Monitor.C07
 import Hannibal.Monitor.C10
 import Hannibal.Monitor.C11
+import Hannibal.Monitor.C11C
 import Hannibal.Monitor.C12
 import Hannibal.Monitor.C13
 import Hannibal.Monitor.C14
@@ -57,7 +58,11 @@ def runMonitor (pid : String) (c : MonCtx) (ls : List Label) : Option (Option Na
       | none => ff (monC10q c) ls)
   | "C11" => some (match ff (monC11 c) ls with
       | some k => some k
-      | none => ff (monC11p c) ls)
+      | none => match ff (monC11p c) ls with
+        | some k => some k
+        | none => match ff (monC11c c) ls with     -- the caller of an abandoned invocation gets an error (proved)
+          | some k => some k
+          | none => ff monWf01 ls)                 -- hypothesis of `C11c_holds`: fresh message numbers and op ids
   | "C12" => some (ff (monC12 c.cfg.cap) ls)
   | "C13" => some (match ff (monC13 c) ls with
       | some k => some k
